@@ -206,6 +206,41 @@ Definition named_nonseq (T : tables) : list (N * N) :=
 Lemma named_nonseq_real : named_nonseq RT = [(1298, MChoice); (1923, MMixed)].
 Proof. vm_compute. reflexivity. Qed.
 
+(* ---- make_unique_item_name exceeds the length limit of SHORT-NAME (known finding C07 unique-name-exceeds-max-length) ----
+   Packages a and b, each with ELEMENTS and a SYSTEM (754) whose name is 'N' followed by 126 'a' (127 characters; the limit
+   of the SHORT-NAME pattern is 128).  move_element_here(ELEMENTS of a, SYSTEM of b) succeeds for every validator; the name is
+   taken, so the moved element is renamed to <name>_1: 129 characters, written into the SHORT-NAME unchecked — the same
+   value is refused by check_value (what set_item_name / create_named_sub_element apply), whatever the pattern validator says. *)
+Definition long_name : list N := 78 :: repeat 97 126.
+Definition long_ops : list op :=
+  [OpNewModel; OpCreateFile 0 [102; 48] REAL_LATEST; OpCreateSub 0 5413; OpCreateNamed 1 5250 [97]; OpCreateNamed 1 5250 [98];
+   OpCreateSub 2 3929; OpCreateSub 4 3929; OpCreateNamed 6 754 long_name; OpCreateNamed 7 754 long_name].
+
+Lemma unique_name_too_long :
+  forall (tab_el tab_en : nametab) (check_fn : N -> list N -> res bool) (root_attrs : list (N * cdata)),
+  exists (w : world) (h mv : id) (w' : world) (nmv ns : node) (s : id) (nm : list N) (fn : N),
+    run_ops RT tab_el tab_en ok_check REAL_LATEST root_attrs long_ops (mkWorld (fun _ => None) 0 [] []) = Val w /\
+    e_move_element_here RT tab_en check_fn REAL_LATEST h mv w = Val (OK mv, w') /\
+    w_nodes w' mv = Some nmv /\ item_name RT nmv w' = Val (OK (Some nm), w') /\
+    nm = long_name ++ [95; 49] /\ List.length nm = 129%nat /\
+    n_content nmv = [CElem s] /\ w_nodes w' s = Some ns /\
+    chardata_spec RT (n_type ns) = Val (Some (CPattern fn (Some 128))) /\
+    check_value check_fn (DString nm) (CPattern fn (Some 128)) REAL_LATEST = Val false.
+Proof.
+  intros tab_el tab_en check_fn root_attrs.
+  eexists. exists 6, 10. eexists. eexists. eexists. exists 11. eexists. eexists.
+  split; [vm_compute; reflexivity|].
+  split; [vm_compute; reflexivity|].
+  split; [vm_compute; reflexivity|].
+  split; [vm_compute; reflexivity|].
+  split; [vm_compute; reflexivity|].
+  split; [reflexivity|].
+  split; [reflexivity|].
+  split; [vm_compute; reflexivity|].
+  split; [vm_compute; reflexivity|].
+  reflexivity.
+Qed.
+
 (* ---- "every node of every reachable world is Ordered for its CURRENT min_version" is false ----
    Ordered is relative to a version (find_sub_element is); min_version of an element changes when a file of another version
    joins the model.  History: new model; file f0 in the latest version; create FILE-INFO-COMMENT (name 1043, not in 4.0.1) in
